@@ -353,6 +353,9 @@ func (s SubjectAltName) Builder() (cert.ExtensionBuilder, error) {
 				if err != nil {
 					return nil, fmt.Errorf("config-v1: [subjectAlternativeName] can't decode octet#%d. not a valid integer: %v", j, octet)
 				}
+				if v > 255 || v < 0 {
+					return nil, fmt.Errorf("config-v1: [subjectAlternativeName] can't decode octet#%d. out of bounds (0-255): %v", j, octet)
+				}
 				ipAddr[j] = byte(v)
 			}
 
